@@ -456,6 +456,7 @@ def panics(ctx):
     in_scope_ = [b for b in f.body_list if (fn_label(b).startswith(P) or fn_label(b).startswith('<' + P)) and not b.j.get('from_expansion')]
     matcher = ReviewedMatcher('C17', PANIC_REVIEWED, {short_fn(fn_label(b)) for b in in_scope_})
     ctx.panic_matcher = matcher
+    matcher.site_kinds = {(short_fn(fn_label(b_)), k_) for b_ in in_scope_ for k_, _, _, _ in panic_sites(b_)}
     for b in f.body_list:
         fl = fn_label(b)
         if not (fl.startswith(P) or fl.startswith('<' + P)) or b.j.get('from_expansion'):
